@@ -476,6 +476,8 @@ type snapInfo struct {
 	at      *Dump        // dump right after Snapshot()
 	tainted map[int]bool // accounts on which Suicide ran with a non-zero size counter since
 	pos     int          // index of the Snapshot op in the history
+	sizeLeak map[string]int // sizeChange entries undone since (sizeChange.revert re-journals: dirties[a]++ survives)
+	ripemd   int            // touchChange entries of the RIPEMD address undone since (sticky by design)
 }
 
 type runResult struct {
@@ -484,6 +486,7 @@ type runResult struct {
 	erased   []Op // the history with every successfully reverted region (and all Snapshot/Revert calls) removed
 	f8       bool // some revert undid a Suicide of an account with non-zero size counter
 	reverted int  // number of successful reverts that undid at least one journal entry
+	sizeLeak bool // some revert undid a sizeChange entry (dirties leak)
 	kinds    map[string]bool
 }
 
@@ -586,7 +589,7 @@ func runHistory(s *state.StateDB, h []Op) (*runResult, []failure) {
 		switch o.K {
 		case "Snapshot":
 			if r.Kind == "id" {
-				snaps[r.N] = &snapInfo{at: dump(s), tainted: map[int]bool{}, pos: i}
+				snaps[r.N] = &snapInfo{at: dump(s), tainted: map[int]bool{}, pos: i, sizeLeak: map[string]int{}}
 				keptAt[r.N] = len(kept)
 			}
 		case "Revert":
@@ -637,12 +640,26 @@ func runHistory(s *state.StateDB, h []Op) (*runResult, []failure) {
 					if fmt.Sprint(wantIds) != fmt.Sprint(after.RevIds) || fmt.Sprint(si.at.RevIdx[:len(wantIds)]) != fmt.Sprint(after.RevIdx) {
 						fails = append(fails, failure{"revert-restores/revisions", "validRevisions after revert are not those before the snapshot"})
 					}
-					// dirties: those at the snapshot, plus the documented leaks (sizeChange.revert re-journals; RIPEMD touch is sticky by design)
-					want := dirtMap(si.at)
-					for a, n := range sizeUndone {
-						want[a] += n
+					// dirties: journal.dirties is restored, except that (a) sizeChange.revert calls the journalling
+					// setter SetSize, so dirties[a] keeps one count per undone sizeChange (recorded finding), and
+					// (b) a touch of the RIPEMD address stays dirty by design (journal.dirty, "ugly hack").
+					for sid, sj := range snaps {
+						if sj.pos <= si.pos {
+							for a, n := range sizeUndone {
+								sj.sizeLeak[a] += n
+							}
+							sj.ripemd += ripemdTouch
+						}
+						_ = sid
 					}
-					want[hex.EncodeToString(addrs[2][:])] += ripemdTouch
+					want := dirtMap(si.at)
+					strict := fmt.Sprint(want) == fmt.Sprint(dirtMap(after))
+					leaked := false
+					for a, n := range si.sizeLeak {
+						want[a] += n
+						leaked = leaked || n > 0
+					}
+					want[hex.EncodeToString(addrs[2][:])] += si.ripemd
 					got := dirtMap(after)
 					for a, n := range want {
 						if n == 0 {
@@ -651,9 +668,9 @@ func runHistory(s *state.StateDB, h []Op) (*runResult, []failure) {
 					}
 					if fmt.Sprint(want) != fmt.Sprint(got) {
 						fails = append(fails, failure{"revert-restores/dirties", fmt.Sprintf("journal.dirties after revert %v, expected %v", got, want)})
-					}
-					if len(sizeUndone) > 0 {
-						res.kinds["!sizeChange-undone"] = true
+					} else if !strict && leaked {
+						res.sizeLeak = true
+						fails = append(fails, failure{"sizechange-rejournal/dirties", fmt.Sprintf("journal.dirties after revert %v, at the snapshot %v: sizeChange.revert re-journals through SetSize", got, dirtMap(si.at))})
 					}
 					// erase the region
 					kept = kept[:keptAt[id]]
@@ -717,9 +734,10 @@ type caseJS struct {
 }
 
 type ctx struct {
-	rep *hlib.Report
-	cw  *hlib.CaseWriter
-	id  int
+	rep    *hlib.Report
+	cw     *hlib.CaseWriter
+	id     int
+	perSig map[string]int // failures reported per signature (the report keeps 200 in total)
 }
 
 // evalCase runs one history with all monitors; emit = also write the Coq case.
@@ -745,6 +763,10 @@ func (c *ctx) evalCase(setup int, h []Op, src string, emit bool) {
 				sig := "erasure/root-differs"
 				if res.f8 {
 					sig = "f8-suicide-size/root"
+				} else if res.sizeLeak {
+					// the account stays in journal.dirties, so Finalize treats it as modified: a deleted object is
+					// counted out of the trie size twice, an object replaced by an (undirtying) reset gets flushed
+					sig = "sizechange-rejournal/erasure"
 				}
 				what := fmt.Sprintf("after the history root=%x trieSize=%s, after the history without its reverted frames root=%x trieSize=%s", v1.root[:6], v1.size, v2.root[:6], v2.size)
 				fails = append(fails, failure{sig, what})
@@ -757,7 +779,11 @@ func (c *ctx) evalCase(setup int, h []Op, src string, emit bool) {
 	for _, f := range fails {
 		if !seen[f.sig] {
 			seen[f.sig] = true
-			c.rep.Fail(f.sig, f.what, cj)
+			c.rep.Count("monitor-failure:" + f.sig)
+			if c.perSig[f.sig] < 3 {
+				c.perSig[f.sig]++
+				c.rep.Fail(f.sig, f.what, cj)
+			}
 		}
 	}
 	if res.reverted > 0 {
@@ -855,8 +881,7 @@ func alphabet() []Op {
 }
 
 // exhaustive: every prefix p and body b over the alphabet with |p|+|b| <= depth, history p ++ [Snapshot] ++ b ++ [Revert 0]
-func exhaustive(c *ctx, depth int, setups []int, emitEvery int, rng *hlib.Rng) int {
-	al := alphabet()
+func exhaustive(c *ctx, al []Op, depth int, setups []int, emitEvery int, rng *hlib.Rng) int {
 	count := 0
 	var rec func(cur []Op, n int)
 	emitAll := func(cur []Op) {
@@ -989,8 +1014,8 @@ func main() {
 	rep := hlib.NewReport("C12", "histories of StateDB mutators with nested Snapshot/RevertToSnapshot on the real StateDB over 6 pre-states "+
 		"(corpus incl. the F8 witness, exhaustive prefix+reverted-body sequences over a 22-op alphabet, random long histories); "+
 		"non-trivial = at least one successful revert that undoes journal entries; distinct by (pre-state, set of op kinds, number of such reverts)")
-	cw := hlib.NewCaseWriter(f.Out, "From Coq Require Import List NArith ZArith Bool.\nFrom GQ Require Import Lib.Key Lib.SMap Model.C12.\nImport ListNotations.\nLocal Open Scope N_scope.\n", "C12.case", 50)
-	c := &ctx{rep: rep, cw: cw}
+	cw := hlib.NewCaseWriter(f.Out, "From Coq Require Import List NArith ZArith Bool.\nFrom GQ Require Import Lib.Key Lib.SMap Model.C12.\nImport ListNotations.\nLocal Open Scope N_scope.\n", "C12.case", 100)
+	c := &ctx{rep: rep, cw: cw, perSig: map[string]int{}}
 
 	if f.Replay != "" {
 		var cj caseJS
@@ -1008,15 +1033,24 @@ func main() {
 	for _, cc := range corpus() {
 		c.evalCase(cc.setup, cc.ops, "corpus", true)
 	}
+	al := alphabet()
+	small := append(append([]Op{}, al[:9]...), Op{K: "Suicide", A: 1}, Op{K: "AddBalance", A: 1, V: 2}, Op{K: "AddLog", V: 1})
 	if f.Tier == "thorough" {
-		n := exhaustive(c, 4, []int{1, 3}, 400, rng.Fork())
-		n += exhaustive(c, 3, []int{0, 2, 5}, 60, rng.Fork())
+		n := exhaustive(c, al, 3, []int{0, 1, 2, 3, 4, 5}, 250, rng.Fork())
+		n += exhaustive(c, small, 4, []int{1, 5}, 600, rng.Fork())
 		rep.Exhaustive = true
-		rep.Note(fmt.Sprintf("exhaustive: %d histories (prefix+body <= 4 on pre-states 1,3; <= 3 on 0,2,5), monitors on all, Coq cases for a sample", n))
+		rep.Note(fmt.Sprintf("exhaustive: %d histories = every prefix+reverted body with |prefix|+|body| <= 3 over the 22-op alphabet on all 6 pre-states, <= 4 over a 12-op alphabet on pre-states 1,5; monitors on all, Coq cases for a sample", n))
 	} else {
-		n := exhaustive(c, 3, []int{1}, 40, rng.Fork())
-		n += exhaustive(c, 2, []int{0, 2, 3, 5}, 8, rng.Fork())
-		rep.Note(fmt.Sprintf("exhaustive: %d histories (prefix+body <= 3 on pre-state 1; <= 2 on 0,2,3,5), monitors on all, Coq cases for a sample", n))
+		n := exhaustive(c, al, 2, []int{0, 1, 2, 3, 4, 5}, 25, rng.Fork())
+		m := 0
+		sr := rng.Fork()
+		for ; m < 1500; m++ { // sampled depth-3 histories
+			cur := []Op{al[sr.Intn(len(al))], al[sr.Intn(len(al))], al[sr.Intn(len(al))]}
+			split := sr.Intn(3)
+			h := append(append(append(append([]Op{}, cur[:split]...), snap()), cur[split:]...), rev(0))
+			c.evalCase([]int{1, 1, 5, 2, 3}[sr.Intn(5)], h, "sampled-depth3", sr.Intn(15) == 0)
+		}
+		rep.Note(fmt.Sprintf("exhaustive: %d histories = every prefix+reverted body with |prefix|+|body| <= 2 over the 22-op alphabet on all 6 pre-states, plus %d sampled of length 3; monitors on all, Coq cases for a sample", n, m))
 	}
 	for i := 0; i < f.N; i++ {
 		su := rng.Intn(nSetups)
